@@ -251,6 +251,14 @@ func (propC16) Run(scI interface{}) *Outcome {
 			names = append(names, n)
 		}
 	}
+	// names with dots inside (file name mapping must not cut them)
+	for _, d := range []string{"mail.welcome", "v1.2-footer", "page.html"} {
+		n := flat(d)
+		srcs[n] = "dotted " + d + " {{ 3 + 3 }}"
+		if err := A.RegisterString(n, srcs[n]); err == nil {
+			names = append(names, n)
+		}
+	}
 	if sc.WorldSeed%7 == 0 {
 		w.AdvanceClock(-7200e9) // the clock steps back: templates now carry a LastModified later than their CompileTime
 	}
@@ -276,6 +284,15 @@ func (propC16) Run(scI interface{}) *Outcome {
 			return fail("serialise failed", fmt.Sprintf("%s: %v", n, err))
 		}
 		sers = append(sers, ser{n, c, d, append([]byte(nil), d...)})
+	}
+	if sc.Via != "bytes" {
+		// a template the source engine holds under a cache key that is not its own name (parsed, then registered as an
+		// object): its stored form carries the template's name (""), the file carries the key
+		srcs["byobj"] = "by-object {{ 5 + 5 }}"
+		if t, err := A.ParseTemplate(srcs["byobj"]); err == nil {
+			A.RegisterTemplate("byobj", t)
+			names = append(names, "byobj")
+		}
 	}
 	for _, raw := range sc.Raws {
 		ast, _ := hex.DecodeString(raw.ASTHex)
@@ -325,8 +342,8 @@ func (propC16) Run(scI interface{}) *Outcome {
 		if err != nil {
 			return fail("deserialise of Template.SaveCompiled bytes failed", fmt.Sprintf("%s: %v", n, err))
 		}
-		_, src, lm, _ := twig.VerifTemplateMeta(t)
-		if back.Name != n || back.Source != src || back.LastModified != lm {
+		own, src, lm, _ := twig.VerifTemplateMeta(t)
+		if back.Name != own || back.Source != src || back.LastModified != lm {
 			return fail("Template.SaveCompiled does not reproduce name/source/LastModified", n)
 		}
 	}
@@ -418,8 +435,8 @@ func (propC16) Run(scI interface{}) *Outcome {
 				if err != nil {
 					return fail("file written by the compiled loader does not deserialise", fmt.Sprintf("%s: %v", n, err))
 				}
-				_, src, lm, _ := twig.VerifTemplateMeta(twig.VerifCached(A)[n])
-				if back.Name != n || back.Source != src || back.LastModified != lm {
+				own, src, lm, _ := twig.VerifTemplateMeta(twig.VerifCached(A)[n])
+				if back.Name != own || back.Source != src || back.LastModified != lm {
 					return fail("file written by the compiled loader reads back differently", fmt.Sprintf("%s: name=%q lastmod=%d vs %d", n, back.Name, back.LastModified, lm))
 				}
 			}
